@@ -37,7 +37,7 @@ def sexpr(node):
         return node.value
     if n == "SignalLiteral" and node.signal_type is None:
         return sexpr(node.value)
-    return (n,)
+    return expr_shape(node, fallback=False)
 
 
 def _binary_expected(o1, o2):
@@ -90,3 +90,131 @@ parse_c = Contract(qualname=PQ, params={"self": ty.TOpaque("parser"), "source_co
                    ensures=[("the expression parses to the tree the documented precedence table prescribes", _parse_post)],
                    verify=False, properties=("C01",), note="evaluated on the real parser over an enumerated box (bounded stand-in)")
 CONTRACTS = [parse_c]
+
+
+# =================================================================================================
+# Statements and the non-operator expression forms (C03 C05 C09 C14 C15 C16): the tree carries exactly what the text says —
+# loop headers (start, stop, step incl. negative literals and names, value lists in order), declarations (type, name), memory declarations,
+# write arguments (value / when / set / reset and WHICH of set / reset came first), reads, place arguments in order with their property
+# dictionary, function parameters (type and name, in order), returns, bundle literals / selections / any / all, `.output`, `.type`.
+# Evaluated on the REAL parser over the enumerated texts: bounded.
+# =================================================================================================
+def stmt_shape(node):
+    n = type(node).__name__
+    if n == "ForStmt":
+        return ("for", node.iterator_name, node.start, node.stop, node.step, node.values, [stmt_shape(s) for s in node.body])
+    if n == "DeclStmt":
+        return ("decl", node.type_name, node.name, expr_shape(node.value))
+    if n == "AssignStmt":
+        t = node.target
+        tgt = ("prop", t.object_name, t.property_name) if type(t).__name__ == "PropertyAccess" else ("name", t.name)
+        return ("assign", tgt, expr_shape(node.value))
+    if n == "MemDecl":
+        return ("mem", node.name, node.signal_type)
+    if n == "ExprStmt":
+        return ("expr", expr_shape(node.expr))
+    if n == "ReturnStmt":
+        return ("return", expr_shape(node.expr))
+    if n == "FuncDecl":
+        return ("func", node.name, [(p.type_name, p.name) for p in node.params], [stmt_shape(s) for s in node.body])
+    if n == "ImportStmt":
+        return ("import", node.path)
+    return (n,)
+
+
+def expr_shape(node, fallback=True):
+    n = type(node).__name__
+    if n == "SignalLiteral" and node.signal_type is None:
+        return sexpr(node.value)   # a bare number / expression
+    if n == "WriteExpr":
+        return ("write", node.memory_name, expr_shape(node.value), expr_shape(node.when) if node.when is not None else None,
+                expr_shape(node.set_signal) if node.set_signal is not None else None, expr_shape(node.reset_signal) if node.reset_signal is not None else None, node.set_priority)
+    if n == "ReadExpr":
+        return ("read", node.memory_name)
+    if n == "CallExpr":
+        return ("call", node.name, [expr_shape(x) for x in node.args])
+    if n == "SignalLiteral":
+        return ("lit", node.signal_type if not hasattr(node.signal_type, "object_name") else ("type-of", node.signal_type.object_name), expr_shape(node.value))
+    if n == "StringLiteral":
+        return ("str", node.value)
+    if n == "DictLiteral":
+        return ("dict", [(k, expr_shape(v)) for k, v in node.entries.items()])
+    if n == "BundleLiteral":
+        return ("bundle", [expr_shape(x) for x in node.elements])
+    if n == "BundleSelectExpr":
+        return ("select", expr_shape(node.bundle), node.signal_type)
+    if n == "BundleAnyExpr":
+        return ("any", expr_shape(node.bundle))
+    if n == "BundleAllExpr":
+        return ("all", expr_shape(node.bundle))
+    if n == "EntityOutputExpr":
+        return ("output", node.entity_name)
+    if n == "PropertyAccessExpr":
+        return ("propread", node.object_name, node.property_name)
+    if n == "ProjectionExpr" and hasattr(node.target_type, "object_name"):
+        return ("|", expr_shape(node.expr), ("type-of", node.target_type.object_name))
+    return sexpr(node) if fallback else (n,)
+
+
+def statement_arg_sets():
+    from dsl_compiler.src.parsing.parser import DSLParser
+    cases = []
+    body = "Signal t = i;"
+    bshape = [("decl", "Signal", "t", "i")]
+    for a, b in ((0, 3), (5, 0), (-3, -4), (-2, 3), (2, 2), (0x10, 0b11)):
+        cases.append((f"for i in {a}..{b} {{ {body} }}", ("for", "i", a, b, 1, None, bshape)))
+        for s in (1, 2, -1, -3, 7):
+            cases.append((f"for i in {a}..{b} step {s} {{ {body} }}", ("for", "i", a, b, s, None, bshape)))
+    cases += [(f"for k in n..m step s {{ {body} }}", ("for", "k", "n", "m", "s", None, bshape)),
+              (f"for k in 0..n {{ {body} }}", ("for", "k", 0, "n", 1, None, bshape)),
+              (f"for i in [4, -1, 9] {{ {body} }}", ("for", "i", None, None, None, [4, -1, 9], bshape)),
+              (f"for i in [7] {{ {body} }}", ("for", "i", None, None, None, [7], bshape)),
+              ("for i in 0..2 { for j in [1, 2] { Signal t = i + j; } }", ("for", "i", 0, 2, 1, None, [("for", "j", None, None, None, [1, 2], [("decl", "Signal", "t", ("+", "i", "j"))])]))]
+    for tname in ("int", "Signal", "Bundle", "Entity"):
+        cases.append((f"{tname} v = w;", ("decl", tname, "v", "w")))
+    cases += [('Memory m: "signal-M";', ("mem", "m", "signal-M")), ("Memory m;", ("mem", "m", None)),
+              ("m.write(v);", ("expr", ("write", "m", "v", None, None, None, True))),
+              ("m.write(v, when=c > 0);", ("expr", ("write", "m", "v", (">", "c", 0), None, None, True))),
+              ("m.write(1, set=s, reset=r);", ("expr", ("write", "m", 1, None, "s", "r", True))),
+              ("m.write(1, reset=r, set=s);", ("expr", ("write", "m", 1, None, "s", "r", False))),
+              ("m.write(v + 1, set=s > 3, reset=r < 2);", ("expr", ("write", "m", ("+", "v", 1), None, (">", "s", 3), ("<", "r", 2), True))),
+              ("Signal o = m.read();", ("decl", "Signal", "o", ("read", "m"))),
+              ('Entity e = place("small-lamp", 3, -4);', ("decl", "Entity", "e", ("call", "place", [("str", "small-lamp"), 3, -4]))),
+              ('Entity e = place("inserter", x, y + 1, {direction: 4, recipe: "gear"});',
+               ("decl", "Entity", "e", ("call", "place", [("str", "inserter"), "x", ("+", "y", 1), ("dict", [("direction", 4), ("recipe", ("str", "gear"))])]))),
+              ("e.enable = x > 3;", ("assign", ("prop", "e", "enable"), (">", "x", 3))), ("v = w + 1;", ("assign", ("name", "v"), ("+", "w", 1))),
+              ("func f(Signal a, int b, Entity c) { Signal t = a + b; return t; }",
+               ("func", "f", [("Signal", "a"), ("int", "b"), ("Entity", "c")], [("decl", "Signal", "t", ("+", "a", "b")), ("return", "t")])),
+              ("func g() { return 1; }", ("func", "g", [], [("return", 1)])),
+              ("Signal r = f(x, 2, y + 1);", ("decl", "Signal", "r", ("call", "f", ["x", 2, ("+", "y", 1)]))),
+              ('Signal s = ("signal-A", 5);', ("decl", "Signal", "s", ("lit", "signal-A", 5))), ('Signal s = ("signal-A", x + 1);', ("decl", "Signal", "s", ("lit", "signal-A", ("+", "x", 1)))),
+              ("Signal s = (a.type, 3);", ("decl", "Signal", "s", ("lit", ("type-of", "a"), 3))), ("Signal s = x | a.type;", ("decl", "Signal", "s", ("|", "x", ("type-of", "a")))),
+              ('Bundle b = { ("signal-A", 1), x, c };', ("decl", "Bundle", "b", ("bundle", [("lit", "signal-A", 1), "x", "c"]))),
+              ('Signal s = b["signal-A"];', ("decl", "Signal", "s", ("select", "b", "signal-A"))),
+              ("Signal s = any(b) > 3;", ("decl", "Signal", "s", (">", ("any", "b"), 3))), ("Signal s = all(b) < 3;", ("decl", "Signal", "s", ("<", ("all", "b"), 3))),
+              ("Bundle c = ch.output;", ("decl", "Bundle", "c", ("output", "ch"))), ('Signal s = ch.output["iron-plate"];', ("decl", "Signal", "s", ("select", ("output", "ch"), "iron-plate"))),
+              ("Bundle f = (b > 3) : b;", ("decl", "Bundle", "f", (":", (">", "b", 3), "b"))), ("Signal s = (x > 3) : -2;", ("decl", "Signal", "s", (":", (">", "x", 3), -2)))]
+    out = []
+    for text, want in cases:
+        p = DSLParser()
+        p._scenario = {"text": text, "expected": want}
+        out.append({"self": p, "source_code": text, "filename": "<string>"})
+    return out
+
+
+def _stmt_post(a, res):
+    got = stmt_shape(res.statements[0])
+    return _norm(got) == _norm(a.self._scenario["expected"])
+
+
+def _norm(x):
+    if isinstance(x, (list, tuple)):
+        return tuple(_norm(y) for y in x)
+    return x
+
+
+statement_c = Contract(qualname=PQ, params={"self": ty.TOpaque("parser"), "source_code": ty.TOpaque("text"), "filename": ty.TOpaque("name")},
+                       ensures=[("the statement parses to a tree that carries exactly what the text says (names, numbers with their sign, order of arguments, which of set / reset came first)",
+                                 _stmt_post)],
+                       verify=False, properties=("C16", "C05", "C03", "C09", "C15", "C14"), note="statement forms; evaluated on the real parser over an enumerated box (bounded stand-in)")
+CONTRACTS.append(statement_c)
